@@ -231,6 +231,8 @@ impl Object {
     /// It is up to the caller to ensure the object is actually heap-allocated and points to a valid memory location.
     #[inline]
     unsafe fn get<'a, T>(self) -> &'a T {
+        #[cfg(feature = "verif")]
+        crate::verif::shadow_deref(self.as_ptr() as usize);
         &*(self.as_ptr() as *const T)
     }
 
@@ -238,7 +240,15 @@ impl Object {
     /// It is up to the caller to ensure the object is actually heap-allocated and points to a valid memory location.
     #[inline]
     unsafe fn get_mut<'a, T>(self) -> &'a mut T {
+        #[cfg(feature = "verif")]
+        crate::verif::shadow_deref(self.as_ptr() as usize);
         &mut *(self.as_ptr() as *mut T)
+    }
+
+    /// The raw tagged word
+    #[cfg(feature = "verif")]
+    pub fn raw_bits(self) -> usize {
+        self.0 as usize
     }
 
     /// Returns true if this pointer does not contain an immediate value
@@ -438,6 +448,12 @@ impl Float {
 
     #[inline]
     unsafe fn destroy(obj: Object) {
+        // Under the verification hooks a released box is marked dead and kept (quarantined),
+        // so that a later use is an observable event on intact memory.
+        #[cfg(feature = "verif")]
+        if crate::verif::shadow_free(obj.as_ptr() as usize) || true {
+            return;
+        }
         drop_in_place(obj.as_ptr() as *mut Self);
         dealloc(obj.as_ptr(), Layout::new::<Self>());
     }
@@ -456,6 +472,10 @@ struct String {
 
 impl String {
     unsafe fn destroy(ptr: Object) {
+        #[cfg(feature = "verif")]
+        if crate::verif::shadow_free(ptr.as_ptr() as usize) || true {
+            return;
+        }
         drop_in_place(ptr.as_ptr() as *mut Self);
         dealloc(ptr.as_ptr(), Layout::new::<Self>());
     }
@@ -479,6 +499,10 @@ impl Array {
 
     /// Drops and deallocate this NlArray struct and its value
     unsafe fn destroy(ptr: Object) {
+        #[cfg(feature = "verif")]
+        if crate::verif::shadow_free(ptr.as_ptr() as usize) || true {
+            return;
+        }
         drop_in_place(ptr.as_ptr() as *mut Self);
         dealloc(ptr.as_ptr(), Layout::new::<Self>());
     }
@@ -546,6 +570,11 @@ impl Display for Type {
 fn allocate(layout: Layout) -> *mut u8 {
     // Safety: we only call this function for types with a non-zero layout
     let ptr = unsafe { alloc(layout) };
+
+    #[cfg(feature = "verif")]
+    if !ptr.is_null() {
+        crate::verif::shadow_alloc(ptr as usize);
+    }
 
     if ptr.is_null() {
         handle_alloc_error(layout);
